@@ -573,6 +573,8 @@ class Engine:
             m = self._find_model(name, ce)
             if m is not None:
                 res = m(self, st, args, info)
+                if isinstance(res, Work):
+                    return list(res)
                 if res is not None:
                     out = []
                     for (s2, val) in res:
@@ -636,6 +638,31 @@ class Engine:
                 self._write_place(st, fn, fid, t['dest'], val)
                 return [(st, fn, fid, t['target'])]
         return None
+
+    def call_value_k(self, st, fn, fid, f, cargs, k):
+        """call function value f (closure aggregate or fn item) with cargs, then continue with k(state, result) -> work list"""
+        cf = self._closure_fn(f)
+        if cf is None:
+            if isinstance(f, tuple) and f and f[0] == 'fnitem':
+                return k(st, apply_fnitem(self, f[1], list(cargs)))
+            return k(st, ('apply', f, tuple(cargs)))
+        nfid = next(self.fid)
+        fr = {}
+        st.frames[nfid] = fr
+        st.visited[nfid] = set()
+        st.entered[nfid] = set()
+        ety = cf.local_ty(1)
+        if ety.startswith('&'):
+            fr[-1] = f
+            fr[1] = ('ref', ('L', nfid, -1))
+        else:
+            fr[1] = f
+        for i_, x in enumerate(cargs):
+            fr[2 + i_] = x
+        cid = next(self.cont_id)
+        self.conts[cid] = k
+        st.stack.append((fn, fid, ('cont', cid), None, cf.name))
+        return [(st, cf, nfid, 0)]
 
     # ---- iterator adapters as loops ------------------------------------------------------------------
     def _fork_bool(self, st, v):
@@ -1116,6 +1143,19 @@ def binop(op, a, b, ty=None):
             if with_ovf:
                 return mk_tuple(res, C(wrapped))
             return res
+    # identities with the constant 0 (integers only): x & 0 = 0, x | 0 = x ^ 0 = x + 0 = x - 0 = x << 0 = x >> 0 = x
+    if not with_ovf and base in ('BitAnd', 'BitOr', 'BitXor', 'Shl', 'Shr'):
+        za = is_const(a) and a[1] == 0 and not isinstance(a[1], bool)
+        zb = is_const(b) and b[1] == 0 and not isinstance(b[1], bool)
+        if base == 'BitAnd' and (za or zb):
+            return C(0)
+        if base in ('BitOr', 'BitXor'):
+            if zb:
+                return a
+            if za:
+                return b
+        if base in ('Shl', 'Shr') and zb:
+            return a
     if base == 'Eq' or base == 'Ne':
         t = None
         if is_const(b) and not is_const(a):
@@ -1371,6 +1411,96 @@ def expand_closure(eng, st, clo, cargs):
     return ('apply', clo, tuple(cargs))
 
 
+class Work(list):
+    """returned by a model that schedules further execution (closure calls with effects) instead of (state, value) pairs"""
+
+
+def _finish_call(eng, s_, info, val):
+    fn, fid, t = info['fn'], info['fid'], info['term']
+    if val is ABORT:
+        return [Outcome('abort', None, s_, where=(fn.name, info['name']))]
+    eng._write_place(s_, fn, fid, t['dest'], val)
+    if t['target'] is None:
+        return [Outcome('abort', None, s_, where=(fn.name, info['name']))]
+    return [(s_, fn, fid, t['target'])]
+
+
+def m_combinator(kind, which):
+    """Option / Result / bool combinators taking a function value; the callee runs with its effects (events) on the path.
+
+    kind: 'option' | 'result' | 'bool'.  which: method name."""
+    def m(eng, st, args, info):
+        fn, fid = info['fn'], info['fid']
+        out = Work()
+        x = args[0]
+        some = lambda v: mk_adt(OPTION, 'Some', [('0', v)])
+        none = mk_adt(OPTION, 'None', [])
+        ok = lambda v: mk_adt(RESULT, 'Ok', [('0', v)])
+        err = lambda v: mk_adt(RESULT, 'Err', [('0', v)])
+        if kind == 'bool':
+            for s2, truth in eng._fork_bool(st, x):
+                if which == 'then':
+                    if truth:
+                        out.extend(eng.call_value_k(s2, fn, fid, args[1], [], lambda s3, r: _finish_call(eng, s3, info, some(r))))
+                    else:
+                        out.extend(_finish_call(eng, s2, info, none))
+                else:   # then_some
+                    out.extend(_finish_call(eng, s2, info, some(args[1]) if truth else none))
+            return out
+        variants = [('None', 0), ('Some', 1)] if kind == 'option' else [('Ok', 0), ('Err', 1)]
+        for s2, v in _fork_on_discr(eng, st, x, variants):
+            p = variant_payload(x, v) if v != 'None' else None
+            fin = lambda val, s_=s2: _finish_call(eng, s_, info, val)
+            call = lambda f, cargs, wrap, s_=s2: eng.call_value_k(s_, fn, fid, f, cargs, lambda s3, r: _finish_call(eng, s3, info, wrap(r)))
+            ident = lambda r: r
+            if kind == 'option':
+                if which == 'map':
+                    out.extend(call(args[1], [p], some) if v == 'Some' else fin(none))
+                elif which == 'map_or':
+                    out.extend(call(args[2], [p], ident) if v == 'Some' else fin(args[1]))
+                elif which == 'map_or_else':
+                    out.extend(call(args[2], [p], ident) if v == 'Some' else call(args[1], [], ident))
+                elif which == 'and_then':
+                    out.extend(call(args[1], [p], ident) if v == 'Some' else fin(none))
+                elif which == 'unwrap_or_else':
+                    out.extend(fin(p) if v == 'Some' else call(args[1], [], ident))
+                elif which == 'unwrap_or':
+                    out.extend(fin(p) if v == 'Some' else fin(args[1]))
+                elif which == 'is_some_and':
+                    out.extend(call(args[1], [p], ident) if v == 'Some' else fin(FALSE))
+                elif which == 'ok_or_else':
+                    out.extend(fin(ok(p)) if v == 'Some' else call(args[1], [], err))
+                elif which == 'filter':
+                    if v == 'Some':
+                        def k(s3, r, p_=p):
+                            res = []
+                            for s4, truth in eng._fork_bool(s3, r):
+                                res.extend(_finish_call(eng, s4, info, some(p_) if truth else none))
+                            return res
+                        out.extend(eng.call_value_k(s2, fn, fid, args[1], [('ref', ('K', p))], k))
+                    else:
+                        out.extend(fin(none))
+            else:
+                if which == 'map':
+                    out.extend(call(args[1], [p], ok) if v == 'Ok' else fin(err(p)))
+                elif which == 'map_err':
+                    out.extend(fin(ok(p)) if v == 'Ok' else call(args[1], [p], err))
+                elif which == 'and_then':
+                    out.extend(call(args[1], [p], ident) if v == 'Ok' else fin(err(p)))
+                elif which == 'unwrap_or_else':
+                    out.extend(fin(p) if v == 'Ok' else call(args[1], [p], ident))
+                elif which == 'unwrap_or':
+                    out.extend(fin(p) if v == 'Ok' else fin(args[1]))
+                elif which == 'ok':
+                    out.extend(fin(some(p)) if v == 'Ok' else fin(none))
+                elif which == 'map_or':
+                    out.extend(call(args[2], [p], ident) if v == 'Ok' else fin(args[1]))
+                elif which == 'is_ok_and':
+                    out.extend(call(args[1], [p], ident) if v == 'Ok' else fin(FALSE))
+        return out
+    return m
+
+
 def m_eq(eng, st, args, info):
     a = _deref_arg(eng, st, args[0])
     b = _deref_arg(eng, st, args[1])
@@ -1609,9 +1739,25 @@ DEFAULT_MODELS = {
     '<std::result::Result<T, F> as std::ops::FromResidual<std::result::Result<std::convert::Infallible, E>>>::from_residual': m_from_residual_result,
     '<std::option::Option<T> as std::ops::FromResidual<std::option::Option<std::convert::Infallible>>>::from_residual': m_from_residual_option,
     'std::option::Option::<T>::ok_or': m_ok_or,
-    'std::option::Option::<T>::map': m_option_map,
-    'std::result::Result::<T, E>::map': m_result_map,
-    'std::result::Result::<T, E>::map_err': m_result_map_err,
+    'std::option::Option::<T>::map': m_combinator('option', 'map'),
+    'std::result::Result::<T, E>::map': m_combinator('result', 'map'),
+    'std::result::Result::<T, E>::map_err': m_combinator('result', 'map_err'),
+    'std::option::Option::<T>::map_or': m_combinator('option', 'map_or'),
+    'std::option::Option::<T>::map_or_else': m_combinator('option', 'map_or_else'),
+    'std::option::Option::<T>::and_then': m_combinator('option', 'and_then'),
+    'std::option::Option::<T>::unwrap_or_else': m_combinator('option', 'unwrap_or_else'),
+    'std::option::Option::<T>::unwrap_or': m_combinator('option', 'unwrap_or'),
+    'std::option::Option::<T>::is_some_and': m_combinator('option', 'is_some_and'),
+    'std::option::Option::<T>::ok_or_else': m_combinator('option', 'ok_or_else'),
+    'std::option::Option::<T>::filter': m_combinator('option', 'filter'),
+    'std::result::Result::<T, E>::and_then': m_combinator('result', 'and_then'),
+    'std::result::Result::<T, E>::unwrap_or_else': m_combinator('result', 'unwrap_or_else'),
+    'std::result::Result::<T, E>::unwrap_or': m_combinator('result', 'unwrap_or'),
+    'std::result::Result::<T, E>::ok': m_combinator('result', 'ok'),
+    'std::result::Result::<T, E>::map_or': m_combinator('result', 'map_or'),
+    'std::result::Result::<T, E>::is_ok_and': m_combinator('result', 'is_ok_and'),
+    'core::bool::<impl bool>::then': m_combinator('bool', 'then'),
+    'core::bool::<impl bool>::then_some': m_combinator('bool', 'then_some'),
     '<std::option::Option<T> as std::cmp::PartialEq>::eq': m_eq,
     'std::cmp::PartialEq::ne': m_ne,
     'core::tuple::<impl std::cmp::PartialEq for (U, T)>::eq': m_eq,
